@@ -126,6 +126,16 @@ def mk_source(rng, kind, poles_hint=None):
         return {'text': '{%s*exp(-%s*t)*u(t)}' % (ex(A), ex(a)), 'nf': {'reg': [[fs(0), 0, g(-a), g(A), True]], 'sing': []}, 'causal': True, 'tag': kind}
     if kind == 'texp':
         return {'text': '{%s*t*exp(-%s*t)*u(t)}' % (ex(A), ex(a)), 'nf': {'reg': [[fs(0), 1, g(-a), g(A), True]], 'sing': []}, 'causal': True, 'tag': kind}
+    if kind == 'tpow':      # polynomial in t: a pole of order k + 1 at the origin
+        k = rng.choice([2, 3, 3, 4])
+        fact = 1
+        for j in range(2, k + 1):
+            fact *= j
+        return {'text': '{%s*t**%d*u(t)}' % (ex(A), k), 'nf': {'reg': [[fs(0), k, g(0), g(A * fact), True]], 'sing': []}, 'causal': True, 'tag': kind}
+    if kind == 'tpowexp':   # t^k e^{-a t}: a pole of order k + 1 at -a
+        k = rng.choice([2, 3])
+        fact = 2 if k == 2 else 6
+        return {'text': '{%s*t**%d*exp(-%s*t)*u(t)}' % (ex(A), k, ex(a)), 'nf': {'reg': [[fs(0), k, g(-a), g(A * fact), True]], 'sing': []}, 'causal': True, 'tag': kind}
     if kind == 'ramp':
         return {'text': '{%s*t*u(t)}' % ex(A), 'nf': {'reg': [[fs(0), 1, g(0), g(A), True]], 'sing': []}, 'causal': True, 'tag': kind}
     if kind == 'dstep':
@@ -152,7 +162,7 @@ def mk_source(rng, kind, poles_hint=None):
     raise ValueError(kind)
 
 
-SRC_CAUSAL = ['step', 'exp', 'texp', 'ramp', 'dstep', 'dexp', 'pulse', 'impulse', 'cos', 'sin', 'dcos']
+SRC_CAUSAL = ['step', 'exp', 'texp', 'ramp', 'dstep', 'dexp', 'pulse', 'impulse', 'cos', 'sin', 'dcos', 'tpow', 'tpowexp']
 SRC_ALL = SRC_CAUSAL + ['dc', 'ac']
 
 
@@ -329,6 +339,26 @@ def fam_cascade(rng, pat, src, icp):
     return c
 
 
+def fam_chain(rng, pat, src, icp, nst=None):
+    """3 or 4 IDENTICAL first-order sections isolated by VCVS buffers: one natural frequency of
+    multiplicity 3 or 4 (plus the poles of the source)"""
+    nst = nst or rng.choice([3, 4])
+    c = Ckt(['chain', 'mult%d' % nst])
+    c.add('V', 'V1', (1, 0), src=src)
+    tau = rnd(rng, (1, 2, F(1, 2), F(3, 2)))
+    node = 1
+    nxt = 2
+    for k in range(1, nst + 1):
+        Rk = rnd(rng, (1, 2, F(1, 2), 3))
+        c.add('R', 'R%d' % k, (node, nxt), R=Rk)
+        c.add('C', 'C%d' % k, (nxt, 0), C=tau / Rk, v0=maybe_ic(rng, icp / 2))
+        if k < nst:
+            c.add('E', 'E%d' % k, (nxt + 1, 0, nxt, 0), gain=rnd(rng, (1, 1, 2, -1)))
+            node = nxt + 1
+            nxt = nxt + 2
+    return c
+
+
 def fam_tf(rng, pat, src, icp):
     c = Ckt(['transformer'])
     c.add('V', 'V1', (1, 0), src=src)
@@ -408,7 +438,7 @@ def fam_two_sources(rng, pat, src, icp):
     return c
 
 
-FAMILIES = [fam_series_rlc, fam_parallel_rlc, fam_rc, fam_rl, fam_cascade, fam_tf, fam_vccs, fam_ccvs, fam_cccs, fam_coupled, fam_two_sources]
+FAMILIES = [fam_series_rlc, fam_parallel_rlc, fam_rc, fam_rl, fam_cascade, fam_tf, fam_vccs, fam_ccvs, fam_cccs, fam_coupled, fam_two_sources, fam_chain]
 
 
 # ------------------------------------------------------------------ quantities and textbook laws
@@ -594,6 +624,21 @@ def corpus_cases(rng):
     c.add('R', 'R2', (4, 5), R=2)
     c.add('L', 'L2', (5, 6), L=1)
     c.add('C', 'C2', (6, 0), C=F(1, 5))
+    out.append(build_case(c, rng))
+    # natural frequencies of multiplicity 4: cubic ramp into an RC section (order-4 pole at 0), unit step into four
+    # identical buffered RC sections (order-4 pole at -1): the residues of order < 4 need the higher derivatives / k!
+    c = Ckt(['corpus', 'rc', 'mult4_origin'])
+    c.add('V', 'V1', (1, 0), src={'text': '{t**3*u(t)}', 'nf': {'reg': [[fs(0), 3, g(0), g(6), True]], 'sing': []}, 'causal': True, 'tag': 'tpow'})
+    c.add('R', 'R1', (1, 2), R=1)
+    c.add('C', 'C1', (2, 0), C=1)
+    out.append(build_case(c, rng))
+    c = Ckt(['corpus', 'chain', 'mult4'])
+    c.add('V', 'V1', (1, 0), src={'text': 'step 1', 'nf': {'reg': [[fs(0), 0, g(0), g(1), True]], 'sing': []}, 'causal': True, 'tag': 'step'})
+    for k in range(1, 5):
+        c.add('R', 'R%d' % k, (2 * k - 1, 2 * k), R=1)
+        c.add('C', 'C%d' % k, (2 * k, 0), C=1)
+        if k < 4:
+            c.add('E', 'E%d' % k, (2 * k + 1, 0, 2 * k, 0), gain=1)
     out.append(build_case(c, rng))
     # initial value problem with a delayed source
     c = Ckt(['corpus', 'rc', 'delayed_ivp'])
@@ -1291,9 +1336,9 @@ def run(tier='quick', replay=None):
             res.extra['traces_validated_against_impl'] = len(items)
             res.extra['case_eval_seconds'] = round(max([r_[2] for r_ in cr.values()] + [0]), 1)
         res.rule = ('cases: corpus (series RLC s^2+2s+5 with/without initial conditions, impulse into RC, coupled inductors with initial currents, dc + step) + '
-                    'generated circuits from 11 families (series/parallel RLC with chosen natural frequencies real/repeated/complex/imaginary, RC, RL, VCVS-buffered '
-                    'cascades incl. repeated real and repeated complex pairs, transformer, VCCS, CCVS, CCCS, coupled inductors, steady state + transient) x 13 source '
-                    'kinds (step, dc, exp, t exp, ramp, delayed step/exp, pulse, impulse, cos, sin, damped cos, ac; resonant with a natural frequency on demand) x '
+                    'generated circuits from 12 families (series/parallel RLC with chosen natural frequencies real/repeated/complex/imaginary, RC, RL, chains of 3-4 identical buffered sections (multiplicity 3-4), VCVS-buffered '
+                    'cascades incl. repeated real and repeated complex pairs, transformer, VCCS, CCVS, CCCS, coupled inductors, steady state + transient) x 15 source '
+                    'kinds (step, dc, exp, t exp, t^k, t^k exp, ramp, delayed step/exp, pulse, impulse, cos, sin, damped cos, ac; resonant with a natural frequency on demand) x '
                     'initial conditions; every element voltage/current and node voltage observed; + convert_IVP experiments (1-3 switches, RC/RL, query time '
                     'before/at/between/after the instants); non-trivial = at least one quantity parsed to the normal form')
 
